@@ -32,7 +32,7 @@ def verdicts (i : Inst) (as : List Nat) : String :=
   s!"dist={bit (Spec.Mtvrp.distB i as)} time={bit (Spec.Mtvrp.timeB .le i as)} " ++
   s!"cSort={bit (sortedTest i.n as)} cStatic={bit (checkStatic i)} cLen={bit (checkReplay noTw 0 0 0 as)} " ++
   s!"cTime={bit (checkReplay noLimit 0 0 0 as)} cCapL={bit (checkC1 i.cap i.dL 0 as)} cCapB={bit (checkC1 i.cap i.dB 0 as)} " ++
-  s!"wf={bit (wf i)}"
+  s!"wf={bit (wf i)} acc={bit (Spec.Mtvrp.acceptedB i as)}"
 
 /-- `mtvrp.episode <instance sections> | actions` -/
 def episode (toks : List String) : Option String := do
@@ -66,7 +66,12 @@ def checkBatchOp (toks : List String) : Option String := do
   let feas := rows.map (fun r => Spec.Mtvrp.feasible r.1 r.2)
   pure s!"checkBatch={bit (checkBatch rows)} solo={bits solo} feas={bits feas}"
 
+/-- `mtvrp.starts n B k`: the `k * B` forced start nodes of `select_start_nodes` -/
+def startsOp (toks : List String) : Option String := do
+  let [n, b, k] ← nats toks | none
+  pure s!"starts={natsStr (startNodes n b k)}"
+
 def handlers : List (String × (List String → Option String)) :=
-  [("mtvrp.episode", episode), ("mtvrp.check", checkOp), ("mtvrp.checkbatch", checkBatchOp)]
+  [("mtvrp.episode", episode), ("mtvrp.check", checkOp), ("mtvrp.checkbatch", checkBatchOp), ("mtvrp.starts", startsOp)]
 
 end Rl4co.Driver.Mtvrp
